@@ -236,11 +236,16 @@ impl Accept for DuplexIncoming {
         mut self: Pin<&mut Self>,
         cx: &mut Context<'_>,
     ) -> Poll<Result<Self::Conn, Self::Error>> {
-        if let Some(request) = ready!(self.receiver.poll_recv(cx)) {
-            let stream = request.ack(self.max_buf_size)?;
-            Poll::Ready(Ok(stream))
-        } else {
-            Poll::Ready(Err(io::ErrorKind::ConnectionReset.into()))
+        loop {
+            let Some(request) = ready!(self.receiver.poll_recv(cx)) else {
+                return Poll::Ready(Err(io::ErrorKind::ConnectionReset.into()));
+            };
+
+            // A client which stopped waiting for its connection is not a failure
+            // of the listener: skip the request and keep accepting.
+            if let Ok(stream) = request.ack(self.max_buf_size) {
+                return Poll::Ready(Ok(stream));
+            }
         }
     }
 }
@@ -249,11 +254,14 @@ impl futures_core::Stream for DuplexIncoming {
     type Item = Result<DuplexStream, io::Error>;
 
     fn poll_next(mut self: Pin<&mut Self>, cx: &mut Context<'_>) -> Poll<Option<Self::Item>> {
-        if let Some(request) = ready!(self.receiver.poll_recv(cx)) {
-            let stream = request.ack(self.max_buf_size)?;
-            Poll::Ready(Some(Ok(stream)))
-        } else {
-            Poll::Ready(None)
+        loop {
+            let Some(request) = ready!(self.receiver.poll_recv(cx)) else {
+                return Poll::Ready(None);
+            };
+
+            if let Ok(stream) = request.ack(self.max_buf_size) {
+                return Poll::Ready(Some(Ok(stream)));
+            }
         }
     }
 }
